@@ -347,8 +347,18 @@ def wl_join(ctx, rng, case):
             # ... or of the SAME shape with a hash strategy that agrees with the receiver's on the leading rows and differs further down
             from probables.hashes import default_fnv_1a as _dflt
 
-            bad = P.CountMinSketch(width=width, depth=depth, hash_function=gen.DerivedHash(hf or _dflt, rng.choice(["first_only", "all_but_last"]), depth_at=depth))
+            odd = gen.DerivedHash(hf or _dflt, rng.choice(["first_only", "all_but_last"]), depth_at=depth)
+            bad = P.CountMinSketch(width=width, depth=depth, hash_function=odd)
             ctx.count("refused_joins_with_a_strategy_that_agrees_on_the_leading_rows")
+            if rng.random() < 0.6:
+                # both strategy OBJECTS have been seen before by shallower sketches (legitimate joins of depth 1 .. depth-1 among sketches that
+                # share a strategy): whatever the library learnt about a strategy there must not decide the deeper comparison
+                for strat in (odd, hf or _dflt):
+                    d0 = rng.randint(1, depth - 1)
+                    s1, s2 = P.CountMinSketch(width=width, depth=d0, hash_function=strat), P.CountMinSketch(width=width, depth=d0, hash_function=strat)
+                    s2.add(rng.choice(keys), 2)
+                    s1.join(s2)
+                ctx.count("strategies_used_by_shallower_sketches_before_the_refused_join")
         for kx in rng.sample(keys, min(3, len(keys))):
             bad.add(kx, rng.choice([1, 5, 1700]))
         try:
